@@ -1,5 +1,6 @@
 import Driver.Util
 import KonstVerif.Model.Concat
+import KonstVerif.Model.ConcatHyg
 import KonstVerif.Model.CStr
 import KonstVerif.Spec.Concat
 /-
@@ -14,6 +15,10 @@ import KonstVerif.Spec.Concat
     cat.k.slice_sum <[..]>* | cat.k.concat_slices <N> <[..]>*          (the phases called directly,
     cat.k.concat_sum str|chr .. | cat.k.concat_strs <N> str|chr ..      also with a wrong N; no std
     cat.k.join_sum <sep> <piece>* | cat.k.join_strs <N> <sep> <piece>*  counterpart: spec column `?`)
+    cat.compile <macro> <frag> <decl>/<use> <NAME>     does the invocation compile (`accept`/`reject`) when
+    cat.compile_m ..                                   the caller's item NAME (a const/static/fn/tyAlias)
+        is mentioned inside the macro fragment `$frag`? model: `Hyg.transparent` on the expansion's
+        skeleton; std has no reserved names (spec `accept`; `compile_m`: `?`)
   answer: model<TAB>spec
 -/
 namespace Driver.C20
@@ -151,9 +156,27 @@ def handleKernel (fn : String) (args : List String) : Option String := do
     some (showOut (joinStrs n sep ss >>= asStr))
   | _, _ => none
 
+def parseDecl : String → Option Hyg.UserDecl
+  | "const" => some .const
+  | "static" => some .static
+  | "fn" => some .fn
+  | "tyAlias" => some .tyAlias
+  | _ => none
+
+/-- name hygiene of the expansions: `<macro> <frag> <decl>/<use> <NAME>` -/
+def handleCompile (spec : String) : List String → Option (String × String)
+  | [mac, frag, declUse, name] => do
+    let sk ← Hyg.skOf mac
+    let d ← parseDecl ((declUse.splitOn "/").headD "")
+    if (Hyg.holes frag [] sk).isEmpty || name.isEmpty then none
+    else some (if Hyg.transparent sk frag d name then "accept" else "reject", spec)
+  | _ => none
+
 def handleCat (op : String) (args : List String) : Option (String × String) := do
   let parts := op.splitOn "."
   match parts with
+  | ["compile"] => handleCompile "accept" args
+  | ["compile_m"] => handleCompile "?" args
   | ["k", fn] => (handleKernel fn args).map fun m => (m, "?")
   | ["concat", "lit"] =>
     if args.isEmpty then some (showOut (stringConcat .litEmpty), toHex (stdConcat ([] : List (List Nat))))
